@@ -131,6 +131,23 @@ func TestC23(t *testing.T) {
 	for _, ops := range corpus() {
 		emit(ops, "corpus", true)
 	}
+	// more than 125 operations in one batch: UpdateNodes of 126 nodes (260 puts, three doBatchOp commits),
+	// GetNodes of all 126 names (two pieces of gets), then removal and a second, smaller batch
+	{
+		var big []sh.NodeArg
+		var names []string
+		for i := 0; i < 126; i++ {
+			n := fmt.Sprintf("m%03d", i)
+			a := node(n, "p0", nil, "")
+			if i%16 == 0 {
+				a.Cert = "cert-" + n
+			}
+			big = append(big, a)
+			names = append(names, n)
+		}
+		emit([]sh.Op{{Kind: "AddPod", P: "p0", D: "d0"}, {Kind: "UpdateNodes", Nodes: big}, {Kind: "GetNodes", Names: append(append([]string{}, names...), "n0")},
+			{Kind: "GetNodes", Names: names}, {Kind: "RemoveNode", N: "m003", P: "p0"}, {Kind: "UpdateNodes", Nodes: big[:64]}}, "corpus-big-batch", false)
+	}
 	n := r.N(40, 400)
 	for i := 0; i < n; i++ {
 		g := &sh.Gen{R: r.Rng, S: sh.NewShadow(), AvoidDiv: i%5 != 0}
